@@ -804,3 +804,13 @@ func init() {
 	mut("C03", "siafund unlock hash compared only when the override does not apply… inverted (mismatch accepted)", true, "auth-guard|v1-unlock-hash:SiafundInputs",
 		Edit{v, "\t\t} else if sfi.UnlockConditions.UnlockHash() != parent.SiafundOutput.Address &&\n\t\t\t// override old developer siafund address\n\t\t\t!(", "\t\t} else if sfi.UnlockConditions.UnlockHash() == parent.SiafundOutput.Address &&\n\t\t\t// override old developer siafund address\n\t\t\t!("})
 }
+
+func init() {
+	// ---- "[*]" means every element ----
+	mut("C17", "free-sector indices checked from the second one on (a lone out-of-range index passes)", true, "validate-bounds|free:index-in-range",
+		Edit{"rhp/v4/validation.go", "\tfor _, index := range req.Indices {\n\t\tif index >= sectors {", "\tfor i := 1; i < len(req.Indices); i++ {\n\t\tindex := req.Indices[i]\n\t\tif index >= sectors {"})
+	mut("C17", "(benign) free-sector indices walked by index from zero", false, "",
+		Edit{"rhp/v4/validation.go", "\tfor _, index := range req.Indices {\n\t\tif index >= sectors {", "\tfor i := 0; i < len(req.Indices); i++ {\n\t\tindex := req.Indices[i]\n\t\tif index >= sectors {"})
+	mut("C02", "v2 siacoin inputs validated from the second one on", true, "use-guard|v2-",
+		Edit{"consensus/validation.go", "\tfor i, sci := range txn.SiacoinInputs {\n\t\tif txid, ok := ms.spent(sci.Parent.ID); ok {", "\tfor i := 1; i < len(txn.SiacoinInputs); i++ {\n\t\tsci := txn.SiacoinInputs[i]\n\t\tif txid, ok := ms.spent(sci.Parent.ID); ok {"})
+}
